@@ -3,7 +3,7 @@ From Coq Require Import Floats.
 From EF Require Import Model.Base Model.Lexer Model.Ast Model.Code Model.Value Model.Env Model.Reflect
                        Model.Builtins Model.Compiler Model.VM Spec.Ops Spec.Eval Spec.Exec Proofs.StmtProofs.
 From EF Require Import Spec.Moded.
-From EF Require Spec.ExecFun Proofs.SpecProofs.
+From EF Require Spec.ExecFun Proofs.SpecProofs Proofs.SameValueProofs.
 Import SpecProofs.
 Open Scope N_scope.
 
@@ -81,6 +81,13 @@ Theorem C02_switch_first_match : forall (o : stdlib) (fns : fnmap) (obj : hostva
   let cs := pre ++ (false, es1 ++ e :: es2, blk) :: post in
   forall fuel : nat, (F + switch_cost cs cs + 1 <= fuel)%nat -> ExecFun.sx o fns obj afs fuel (ESwitch v cs) m = r.
 Proof. exact SpecProofs.switch_first_match. Qed.
+
+(* ... where "matches by literal or expression" is: the case label IS the switch value - for values built from
+   integers, strings, booleans, null and arrays of these, plain equality (repair of D40: `switch ([1, 2])` no
+   longer runs `case ["1, 2"]`); a regexp label matches by the match built-in *)
+Theorem C02_case_plain_exact : forall o v c, SameValueProofs.plain v = true -> SameValueProofs.no_iter c = true ->
+  (forall s, c <> VRegexp s) -> (vm_case o v c = Ok (VBool true) <-> v = c).
+Proof. exact SameValueProofs.case_plain_exact. Qed.
 
 (* ... otherwise the default arm, wherever it is written; otherwise none *)
 Theorem C02_switch_no_match : forall (o : stdlib) (fns : fnmap) (obj : hostval) (afs : ExecFun.aftable) (v : expr) (cs : list choice) (F : nat)
